@@ -384,14 +384,26 @@ func (t *simRT) RoundTrip(req *http.Request) (resp *http.Response, err error) {
 	if r.mode == "C14" && k-1 < len(rq.outcomes) {
 		scripted = rq.outcomes[k-1]
 	}
+	var bodyErr error
 	if scripted != "failnoread" && req.Body != nil {
-		b, _ := io.ReadAll(req.Body)
-		att.body = b
+		att.body, bodyErr = io.ReadAll(req.Body)
 	}
 	if req.Body != nil {
 		// the RoundTripper contract: the request body is always closed, also on errors.
 		// (Done here, before any outcome is recorded: closing may still read from the client.)
 		req.Body.Close()
+	}
+	if errors.Is(bodyErr, http.ErrBodyReadAfterClose) {
+		// a retry against the same backend after an earlier attempt consumed and closed the
+		// body (the single-backend known finding): this attempt goes on without it
+		bodyErr = nil
+	}
+	if bodyErr != nil {
+		// as net/http's transport: a request whose body cannot be read is not sent on;
+		// the round trip ends with the body's error and says nothing about the backend
+		att.outcome = "cancelled"
+		end()
+		return nil, bodyErr
 	}
 	c.Logf("rt: req %s attempt %d at backend %d (inflight %d)", id, k, t.idx, r.inflight[t.idx])
 	if c.ParkOr(fmt.Sprintf("hook.rt/r%s#%d", id, k), "req:"+id, req.Context().Done()) {
